@@ -328,19 +328,20 @@ func (e *env) exec(p op) (res string, panicked bool) {
 
 // lineage: what a fresh StateDB needs to reproduce a handle's content
 type lineage struct {
-	ok       bool // replayable
-	tainted  bool // a classified RIPEMD divergence happened
-	base     common.Hash
-	ops      []op  // surviving operations (reads excluded)
-	marks    []int // len(ops) at each valid snapshot (parallel to valid)
-	valid    []int // valid revision ids
-	clean    bool  // journal certainly empty
-	rmLeak   bool  // a reverted segment contained a RIPEMD touch since the last journal clear
-	snapDump map[int]string
+	ok         bool // replayable
+	tainted    bool // a classified RIPEMD divergence happened
+	base       common.Hash
+	ops        []op  // surviving operations (reads excluded)
+	marks      []int // len(ops) at each valid snapshot (parallel to valid)
+	valid      []int // valid revision ids
+	clean      bool  // journal certainly empty
+	rmLeak     bool  // a reverted segment contained a RIPEMD touch since the last journal clear
+	rmDiverged bool  // a Finalise/IntermediateRoot/Commit ran while the leak was pending
+	snapDump   map[int]string
 }
 
 func (l *lineage) clone() *lineage {
-	c := &lineage{ok: l.ok && l.clean, tainted: l.tainted, base: l.base, clean: true, snapDump: map[int]string{}}
+	c := &lineage{ok: l.ok && l.clean, tainted: l.tainted, rmDiverged: l.rmDiverged, base: l.base, clean: true, snapDump: map[int]string{}}
 	c.ops = append([]op{}, l.ops...)
 	return c
 }
@@ -481,6 +482,9 @@ func (cr *caseRun) do(p op) string {
 				cr.commits = append(cr.commits, lab)
 			}
 		}
+		if l.rmLeak {
+			l.rmDiverged = true // the leaked RIPEMD dirty mark has now been consumed by a Finalise
+		}
 		l.rmLeak = false
 	case "DU", "CP", "NW":
 	default:
@@ -562,7 +566,7 @@ func (cr *caseRun) checkSurviving(p op, l *lineage, lab int) {
 		}
 	}
 	detail := fmt.Sprintf("handle %d root %s != fresh replay root %s; differing accounts %v", p.h, want.Hex()[:10], got.Hex()[:10], diff)
-	if l.rmLeak && len(diff) == 1 && diff[0] == ripemdID {
+	if (l.rmLeak || l.rmDiverged) && len(diff) == 1 && diff[0] == ripemdID {
 		cr.o.Fail(cr.step, "root-surviving-ripemd-touch", detail)
 		l.tainted = true
 		cr.o.Count("oracle.ripemd-exception")
